@@ -362,6 +362,8 @@ def background(eng):
         bg.append((("pow2",), f))
     for f in TH.pmod_axioms():
         bg.append((("pmod",), f))
+    for f in TH.smul_axioms():
+        bg.append((("smul",), f))
     for f in TH.bnot_axioms():
         bg.append((("bnot",), f))
     for f in TH.rdiv_axioms():
